@@ -30,6 +30,9 @@ def validate_encoded(string):
     raise gfapy.FormatError(
       "{} does not represent a valid float\n".format(repr(string)) +
       r"(it does not match [-+]?[0-9]*\.?[0-9]+([eE][-+]?[0-9]+)?)")
+  if not math.isfinite(float(string)):
+    raise gfapy.ValueError(
+      "the value {} cannot be represented as a GFA float".format(string))
 
 def unsafe_encode(obj):
   return str(obj)
